@@ -582,4 +582,129 @@ theorem weight_conversion_dispatch (W : AMat ℚ n) (wcm : String) :
 example : weightConversion Wasy "invert" = .error "NotImplementedError" :=
   (weight_conversion_dispatch Wasy "invert").2.2.2 (by decide) (by decide) (by decide)
 
+/-! ### further specification of the elementwise utilities -/
+
+/-- `threshold_absolute`: a cell survives iff it is off the diagonal, not below the threshold and nonzero — and keeps its value -/
+theorem ta_keeps_iff (W : AMat ℚ n) (thr : ℚ) (i j : Fin n) :
+    ((thresholdAbsolute W thr).get i j ≠ 0 ↔ i ≠ j ∧ thr ≤ W.get i j ∧ W.get i j ≠ 0) ∧
+    ((thresholdAbsolute W thr).get i j ≠ 0 → (thresholdAbsolute W thr).get i j = W.get i j) := by
+  rw [ta_spec]
+  by_cases h : i ≠ j ∧ thr ≤ W.get i j
+  · rw [if_pos h]
+    exact ⟨⟨fun hne => ⟨h.1, h.2, hne⟩, fun hh => hh.2.2⟩, fun _ => rfl⟩
+  · rw [if_neg h]
+    refine ⟨⟨fun hne => absurd rfl hne, fun hh => absurd (And.intro hh.1 hh.2.1) h⟩, fun hne => absurd rfl hne⟩
+
+theorem ta_diag (W : AMat ℚ n) (thr : ℚ) (i : Fin n) : (thresholdAbsolute W thr).get i i = 0 := by
+  rw [ta_spec]; simp
+
+/-- thresholding twice with the same threshold changes nothing more -/
+theorem ta_idempotent (W : AMat ℚ n) (thr : ℚ) :
+    thresholdAbsolute (thresholdAbsolute W thr) thr = thresholdAbsolute W thr := by
+  apply AMat.ext_get
+  intro i j
+  rw [ta_spec, ta_spec]
+  by_cases h : i ≠ j ∧ thr ≤ W.get i j
+  · simp [h]
+  · simp only [if_neg h]
+    split_ifs <;> rfl
+
+/-- a lower threshold keeps every entry a higher one keeps -/
+theorem ta_monotone (W : AMat ℚ n) {t₁ t₂ : ℚ} (h : t₁ ≤ t₂) (i j : Fin n)
+    (hk : (thresholdAbsolute W t₂).get i j ≠ 0) : (thresholdAbsolute W t₁).get i j = (thresholdAbsolute W t₂).get i j := by
+  rw [ta_spec] at hk ⊢
+  rw [ta_spec]
+  by_cases h2 : i ≠ j ∧ t₂ ≤ W.get i j
+  · rw [if_pos h2, if_pos ⟨h2.1, le_trans h h2.2⟩]
+  · rw [if_neg h2] at hk; exact absurd rfl hk
+
+theorem binarize_idempotent (W : AMat ℚ n) : binarize (binarize W) = binarize W := by
+  apply AMat.ext_get
+  intro i j
+  rw [binarize_spec, binarize_spec]
+  by_cases h : W.get i j = 0 <;> simp [h]
+
+/-- binarizing commutes with inverting the weights: both keep exactly the nonzero cells -/
+theorem binarize_invert (W : AMat ℚ n) : binarize (invert W) = binarize W := by
+  apply AMat.ext_get
+  intro i j
+  rw [binarize_spec, binarize_spec, invert_spec]
+  by_cases h : W.get i j = 0
+  · simp [h]
+  · simp [h]
+
+/-! ### the `copy` flag
+
+`withCopy` is the literal shape of every utility (`if copy: W = W.copy()`, work in place on `W`, `return W`); the statements below are
+what C17 says about it.  They are tied to /repo by the `callsem` driver lines (argument content after the call, result content and the
+`is`-identity, both flags) and by the dynamic predicates of the check. -/
+
+/-- `copy=True`: the argument is untouched, the result is a different object holding `f W` -/
+theorem copy_true_spec (f : AMat ℚ n → AMat ℚ n) (W : AMat ℚ n) :
+    (withCopy true f W).arg = W ∧ (withCopy true f W).res = f W ∧ (withCopy true f W).aliased = false := ⟨rfl, rfl, rfl⟩
+
+/-- `copy=False`: the returned object is the argument itself and the argument holds the result `f W` -/
+theorem copy_false_spec (f : AMat ℚ n → AMat ℚ n) (W : AMat ℚ n) :
+    (withCopy false f W).aliased = true ∧ (withCopy false f W).arg = f W ∧ (withCopy false f W).res = f W := ⟨rfl, rfl, rfl⟩
+
+/-- the result content never depends on the flag -/
+theorem copy_result_same (f : AMat ℚ n → AMat ℚ n) (W : AMat ℚ n) (c₁ c₂ : Bool) :
+    (withCopy c₁ f W).res = (withCopy c₂ f W).res := by
+  cases c₁ <;> cases c₂ <;> rfl
+
+/-- the four total utilities, both flags: argument / result / identity as C17 states them -/
+theorem elementwise_copy_semantics (W : AMat ℚ n) (thr : ℚ) :
+    ((thresholdAbsoluteCall W thr true).arg = W ∧ (thresholdAbsoluteCall W thr true).aliased = false ∧
+      (thresholdAbsoluteCall W thr true).res = thresholdAbsolute W thr) ∧
+    ((thresholdAbsoluteCall W thr false).aliased = true ∧ (thresholdAbsoluteCall W thr false).arg = thresholdAbsolute W thr) ∧
+    ((binarizeCall W true).arg = W ∧ (binarizeCall W true).aliased = false ∧ (binarizeCall W true).res = binarize W) ∧
+    ((binarizeCall W false).aliased = true ∧ (binarizeCall W false).arg = binarize W) ∧
+    ((invertCall W true).arg = W ∧ (invertCall W true).aliased = false ∧ (invertCall W true).res = invert W) ∧
+    ((invertCall W false).aliased = true ∧ (invertCall W false).arg = invert W) :=
+  ⟨⟨rfl, rfl, rfl⟩, ⟨rfl, rfl⟩, ⟨rfl, rfl, rfl⟩, ⟨rfl, rfl⟩, ⟨rfl, rfl, rfl⟩, ⟨rfl, rfl⟩⟩
+
+/-- `normalize` with a nonzero entry: `copy=True` leaves the argument, `copy=False` makes the argument hold `W / max|W|` -/
+theorem normalize_copy_semantics (W : AMat ℚ n) (hW : ∃ i j, W.get i j ≠ 0) :
+    ∃ R, normalize W = some R ∧
+      normalizeCall W true = some { arg := W, res := R, aliased := false } ∧
+      normalizeCall W false = some { arg := R, res := R, aliased := true } := by
+  obtain ⟨R, hR, _⟩ := normalize_max W hW
+  exact ⟨R, hR, by simp [normalizeCall, hR, withCopy], by simp [normalizeCall, hR, withCopy]⟩
+
+/-- `threshold_proportional`: a `p` outside `[0,1]` raises before anything is copied or written; otherwise the outcome follows the flag -/
+theorem tp_copy_semantics (W : AMat ℚ n) (p : ℚ) (order : List ℕ) :
+    ((p > 1 ∨ p < 0) → ∀ c, thresholdProportionalCall W p order c = .error .param) ∧
+    (∀ R, thresholdProportional W p order = .ok R →
+      thresholdProportionalCall W p order true = .ok { arg := W, res := R, aliased := false } ∧
+      thresholdProportionalCall W p order false = .ok { arg := R, res := R, aliased := true }) := by
+  constructor
+  · intro hp c
+    simp [thresholdProportionalCall, tp_param W p order hp, Except.map]
+  · intro R hR
+    simp [thresholdProportionalCall, hR, Except.map, withCopy]
+
+/-- `weight_conversion` hands the flag to the utility it dispatches to -/
+theorem weight_conversion_copy_dispatch (W : AMat ℚ n) (c : Bool) :
+    weightConversionCall W "binarize" c = .ok (some (binarizeCall W c)) ∧
+    weightConversionCall W "normalize" c = .ok (normalizeCall W c) ∧
+    weightConversionCall W "lengths" c = .ok (some (invertCall W c)) ∧
+    (∀ wcm, wcm ≠ "binarize" → wcm ≠ "normalize" → wcm ≠ "lengths" → weightConversionCall W wcm c = .error "NotImplementedError") := by
+  refine ⟨by simp [weightConversionCall], by simp [weightConversionCall], by simp [weightConversionCall], ?_⟩
+  intro wcm h1 h2 h3
+  simp [weightConversionCall, h1, h2, h3]
+
+example : (invertCall Wasy true).arg = Wasy ∧ (invertCall Wasy true).aliased = false ∧ (invertCall Wasy false).aliased = true ∧
+    (invertCall Wasy false).arg = invert Wasy := ⟨rfl, rfl, rfl, rfl⟩
+example : (invertCall Wasy false).arg ≠ Wasy := by
+  intro h
+  have := congrArg (fun M => M.get 2 0) h
+  revert this
+  simp only [invertCall, withCopy]
+  decide +kernel
+example := normalize_copy_semantics Wasy ⟨2, 0, by decide +kernel⟩
+example := (tp_copy_semantics Wsym (1 / 2) [2, 1, 0]).2 Rsym run_sym
+example : thresholdAbsolute (thresholdAbsolute Wsym 2) 2 = thresholdAbsolute Wsym 2 := ta_idempotent Wsym 2
+example : (thresholdAbsolute Wsym 2).get 0 2 ≠ 0 ∧ (thresholdAbsolute Wsym 2).get 0 1 = 0 := by decide +kernel
+example : binarize (invert Wasy) = binarize Wasy := binarize_invert Wasy
+
 end Bct.C17
